@@ -1,4 +1,4 @@
-use std::{collections::BTreeMap, fmt, iter};
+use std::{cmp::min, collections::BTreeMap, fmt, iter};
 
 use bit_vec::BitVec;
 use enumflags2::BitFlags;
@@ -168,7 +168,57 @@ impl FragmentAssembler {
     }
   }
 
+  // Checks that a DATAFRAG is consistent in itself, with the fragment size of its
+  // writer, and with the assembly buffer of the same sample, if there is one
+  // already. The DataFrag deserializer checks only a part of this, and it cannot
+  // know what was received earlier.
+  fn validate_datafrag(&self, datafrag: &DataFrag) -> Result<(), String> {
+    // u64 arithmetic cannot overflow with u32 and u16 operands
+    let frag_size = u64::from(datafrag.fragment_size);
+    let data_size = u64::from(datafrag.data_size);
+    let first_frag = u64::from(u32::from(datafrag.fragment_starting_num));
+    let frag_count = u64::from(datafrag.fragments_in_submessage);
+    let total_frags = u64::from(u32::from(datafrag.total_number_of_fragments()));
+
+    if datafrag.fragment_size != self.fragment_size {
+      return Err(format!(
+        "fragment_size={frag_size}, but this writer has been using fragment_size={}",
+        self.fragment_size
+      ));
+    }
+    if frag_size < 1 || frag_size > data_size {
+      return Err(format!(
+        "fragment_size={frag_size} data_size={data_size}, expected 1 <= fragment_size <= data_size"
+      ));
+    }
+    if first_frag < 1 || frag_count < 1 || first_frag - 1 + frag_count > total_frags {
+      return Err(format!(
+        "fragment_starting_num={first_frag} fragments_in_submessage={frag_count}, but the sample \
+         has fragments 1..={total_frags}"
+      ));
+    }
+    // Only the last fragment of the sample may be shorter than fragment_size.
+    let expected_len =
+      min((first_frag - 1 + frag_count) * frag_size, data_size) - (first_frag - 1) * frag_size;
+    if (datafrag.serialized_payload.len() as u64) < expected_len {
+      return Err(format!(
+        "payload length={} is too short for {frag_count} fragments, expected {expected_len}",
+        datafrag.serialized_payload.len()
+      ));
+    }
+    if let Some(assembly_buffer) = self.assembly_buffers.get(&datafrag.writer_sn) {
+      if assembly_buffer.buffer_bytes.len() as u64 != data_size {
+        return Err(format!(
+          "data_size={data_size}, but earlier fragments of this sample had data_size={}",
+          assembly_buffer.buffer_bytes.len()
+        ));
+      }
+    }
+    Ok(())
+  }
+
   // Returns completed DDSData, when complete, and disposes the assembly buffer.
+  // DATAFRAGs that are not consistent are ignored.
   pub fn new_datafrag(
     &mut self,
     datafrag: &DataFrag,
@@ -176,6 +226,15 @@ impl FragmentAssembler {
   ) -> Option<DDSData> {
     let writer_sn = datafrag.writer_sn;
     let frag_size = self.fragment_size;
+
+    // insert_frags() below does its index arithmetic trusting these conditions.
+    if let Err(reason) = self.validate_datafrag(datafrag) {
+      warn!(
+        "Ignoring inconsistent DATAFRAG: {reason}. writer={:?} sn={:?}",
+        datafrag.writer_id, writer_sn
+      );
+      return None;
+    }
 
     let assembly_buffer = self
       .assembly_buffers
